@@ -1,14 +1,15 @@
 """C11 No residual server state once a client is gone."""
 from socketio import packet
 
-from vf import worlds
+from vf import worlds, miniloop
 from vf.tape import Fail, notrace
 
 PROPERTY = 'C11'
 
 OPS = ['connect /', 'connect /a', 'connect refused', 'enter room', 'event', 'event+ack', 'binary header only',
        'binary header + 1 of 2', 'emit with callback (unanswered)', 'emit with callback (answered)', 'malformed',
-       'client DISCONNECT', 'server disconnect', 'server disconnect, transport lost during the handler', 'leave own room']
+       'client DISCONNECT', 'server disconnect', 'server disconnect, transport lost during the handler', 'leave own room',
+       'broadcast with callback, transport lost during the sends']
 
 
 class Boom(RuntimeError):
@@ -161,6 +162,20 @@ def h_inner(t, part):
                 ev = [p for p in w.take('e0') if not isinstance(p, tuple) and p.packet_type == packet.EVENT]
                 if ev:
                     w.send('e0', w.P(packet.ACK, data=[1], namespace=cur, id=ev[0].id))
+        elif op == 'broadcast with callback, transport lost during the sends':
+            if cur == '/' and w.s.manager.is_connected(live[cur], cur):
+                # the bystander is the first recipient; while the send to it is suspended the transport of the second
+                # recipient ends and is wound up completely (asyncio; on the threaded server sends do not suspend)
+                if asyncio_:
+                    async def both():
+                        tk = miniloop.create_task(w.s.emit('q', 1, namespace='/', callback=lambda *a: None), 'emit')
+                        await miniloop.sleep(0)
+                        await w.eio.lose('e0')
+                        await tk
+                    w.call(both())
+                else:
+                    w.call(w.s.emit('q', 1, namespace='/', callback=lambda *a: None))
+                break
         elif op == 'malformed':
             w.recv('e0', ['x', '9', '2/a', '51-["ev"'][step % 4])
         elif op == 'client DISCONNECT':
